@@ -44,7 +44,7 @@ impl Sim {
             rd::types::RewardShare { contributor_key: self.keys.pk(contributor), unit_share: *unit_share, remaining_bytes: packed.to_le_bytes() }, _ => unreachable!() }
     }
     pub fn def_tree(&mut self, kind: u8, leaves: Vec<Leaf>) -> Tree {
-        let name = format!("T{}", self.defs.len());
+        let name = format!("T{}", self.defs.len());   // unique: defs only grows
         let lt: Vec<String> = leaves.iter().map(Self::leaf_term).collect();
         self.defs.push(format!("let {} := [{}] in", name, lt.join("; ")));
         let root = if kind == 0 {
@@ -55,7 +55,9 @@ impl Sim {
             svm_hash::merkle::merkle_root_from_indexed_pod_leaves(&pods, Some(rd::types::RewardShare::LEAF_PREFIX))
         };
         let root = root.map(|h| h.to_bytes()).unwrap_or([0u8; 32]);
-        if root != [0u8; 32] { self.hashes.insert(root, format!("(tree_root {} {})", if kind == 0 { "PRE_DEBT" } else { "PRE_REWARD" }, name)); }
+        if root != [0u8; 32] && !self.hashes.contains_key(&root) {
+            self.defs.push(format!("let R{} := tree_root {} {} in", name, if kind == 0 { "PRE_DEBT" } else { "PRE_REWARD" }, name));
+            self.hashes.insert(root, format!("R{}", name)); }
         Tree { kind, leaves, name, root }
     }
     pub fn proof(&mut self, t: &Tree, idx: u32) -> Option<Proof> {
